@@ -469,7 +469,7 @@ func c17DistOracle(out *verifkit.Out, tag string, sc *c17DistScenario, res *c17R
 				out.Fail("dist/contacted-root-incompatible "+tag, fmt.Sprintf("%s accepts %v, chain root %d | %s", cc.log, l.roots, sc.rootIdx, line))
 			} else if !ok {
 				// fallback branch of addSomeChain: the chain does not verify against the merged pool, root data is incomplete
-				out.Fail("rootfallback "+tag, fmt.Sprintf("%s is known to accept only roots %v, the chain's root is %d (in no known root set; some log has no root data yet) | %s", cc.log, l.roots, sc.rootIdx, line))
+				c17FailCapped(out, "rootfallback", "rootfallback "+tag, fmt.Sprintf("%s is known to accept only roots %v, the chain's root is %d (in no known root set; some log has no root data yet) | %s", cc.log, l.roots, sc.rootIdx, line))
 			}
 		}
 	}
